@@ -611,10 +611,13 @@ pub fn run(p: &Params, rep: &mut Report) {
         "set semantics are taken from the README ('Each TextSelection in A ... a TextSelection in B', for EMBEDS 'All TextSelections in B are embedded by a TextSelection in A') and the doc comments of TextSelectionOperator".into(),
         "empty sets are excluded".into(),
     ];
+    // the last layout has whitespace runs of exactly 10, 11 and 9 (the documented whitespace limit is 10); it is too long for
+    // all ranges, so only ranges between the letters, the run boundaries and two points inside a run are taken
+    const GAPS: &str = "a          b           c         d";
     let layouts: Vec<&str> = if p.thorough {
-        vec!["ab cd e", "  a  b ", "abcdefg", "a \n\tb  c", "é 日😀 İ\n"]
+        vec!["ab cd e", "  a  b ", "abcdefg", "a \n\tb  c", "é 日😀 İ\n", GAPS]
     } else {
-        vec!["ab cd e", "  a  b ", "abcdefg"]
+        vec!["ab cd e", "  a  b ", "abcdefg", GAPS]
     };
     let limits = [None, Some(0), Some(1), Some(3)];
     let ops = all_variants(&limits);
@@ -638,11 +641,23 @@ pub fn run(p: &Params, rep: &mut Report) {
         let layout = layouts[li];
         let text: Vec<char> = layout.chars().collect();
         let mut rng = Rng::new(p.seed, "c13", li as u64);
-        let universe = sub_universe(text.len(), 10, &mut rng);
+        let sparse = layout == GAPS;
+        let universe = if sparse { vec![(0, 1), (11, 12), (23, 24), (33, 34), (0, 12), (11, 24), (1, 11), (12, 23), (24, 33), (5, 6)] } else { sub_universe(text.len(), 10, &mut rng) };
         let store = build_store(layout, &universe);
         let ctx = Ctx { store: &store, text: text.clone() };
         if part == 0 {
-            let rs = ranges(text.len());
+            let rs = if sparse {
+                let pts = [0usize, 1, 5, 6, 11, 12, 23, 24, 33, 34];
+                let mut v = Vec::new();
+                for (i, b) in pts.iter().enumerate() {
+                    for e in &pts[i..] {
+                        v.push((*b, *e));
+                    }
+                }
+                v
+            } else {
+                ranges(text.len())
+            };
             check_pairs(&ctx, &ops, &rs, rep, layout);
             check_annotations(&ctx, &ops, &universe, rep, layout);
             rep.sample(json!({"layout": layout, "ranges": rs.len(), "pairs": rs.len()*rs.len(), "operator_variants": ops.len(), "example": {"a": rs[5], "b": rs[9], "op": ops[17].name()}}));
